@@ -45,9 +45,9 @@ def wild_edit(rng, spec):
                 m["ins"].append([t, "val"])
             return op
     if op == "drop_cin":
-        cs = [c for c in spec["ctors"].values() if c.get("cloning") == "cin"]
+        cs = [cid for cid, c in spec["ctors"].items() if c.get("cloning") == "cin"]
         if cs:
-            rng.choice(cs)["cloning"] = rng.choice([None, "never"])
+            gen.set_effective_cloning(spec, rng.choice(cs), rng.choice([None, "never"]))
             return op
     if op == "mut_and_ref":
         reqs = [t for t, ty in spec["types"].items() if ty["lc"] == "request" and not ty.get("generic")]
@@ -78,9 +78,9 @@ def wild_edit(rng, spec):
         ty = spec["types"][t]
         if ty["lc"] == "request" and not ty.get("copy"):
             ty["clone"] = True
-            for c in spec["ctors"].values():
+            for cid2, c in list(spec["ctors"].items()):
                 if c["out"] == t:
-                    c["cloning"] = None
+                    gen.set_effective_cloning(spec, cid2, None)
             hs = list(spec["handlers"].values())
             ms = list(spec["mws"].values())
             for x in rng.sample(hs, min(2, len(hs))) + rng.sample(ms, min(1, len(ms))):
